@@ -123,6 +123,62 @@ def handle : P String := do
     match mirrorScatter bs size mir v buf alpha boff with
     | some b => pure s!"B {showRatsL b}"
     | none => pure "ABORT"
+  | "norm" =>
+    let bs ← nat; let (_, ps) ← decompP
+    let xs ← vecsP ps.length
+    let pe := ps.map (Patch.expand bs)
+    pure s!"N {showRat (gnorm2sqr pe xs)} {showRat (gnorm2 qsqrt pe xs)}"
+  | "vmax" =>
+    let _bs ← nat; let (_, ps) ← decompP
+    let xs ← vecsP ps.length
+    pure s!"M {showRat (gMaxAbs xs)} {showRat (gMinAbs xs)} {showRat (gMax xs)} {showRat (gMin xs)}"
+  | "gred" =>
+    -- Gate::sum / min / max / norm2 of one scalar per rank
+    let l ← ratList
+    pure s!"R {showRat (allSum l)} {showRat (allMin l)} {showRat (allMax l)} {showRat (gateNorm2 qsqrt l)}"
+  | "vops" =>
+    let bs ← nat; let mode ← nat; let a ← rat; let b ← rat; let (_, ps) ← decompP
+    let ords ← many ps.length natList
+    let ys ← vecsP ps.length
+    let xs ← vecsP ps.length
+    let pe := ps.map (Patch.expand bs)
+    let r := vopsLocal a b ys xs
+    if mode == 0 then pure (showVecs "V" r) else
+    if !exchangeOk pe then pure "DEADLOCK" else pure (showVecs "V" (sync1 pe ords r))
+  | "gapply2" =>
+    let alpha ← rat; let (_, ps) ← decompP
+    let ords ← many ps.length natList
+    let mats ← many ps.length matP
+    let xs ← vecsP ps.length
+    let ys ← vecsP ps.length
+    if !exchangeOk ps then pure "DEADLOCK" else
+    pure (showVecs "V" (gapply2 ps ords mats xs ys alpha))
+  | "gdiag" =>
+    let kind ← nat; let (_, ps) ← decompP
+    let ords ← many ps.length natList
+    let mats ← many ps.length matP
+    if !exchangeOk ps then pure "DEADLOCK" else
+    pure (showVecs "V" (if kind == 0 then gdiag ps ords mats else glump ps ords mats))
+  | "gfilter" =>
+    let zf ← nat; let (_, ps) ← decompP
+    let fs ← many ps.length (listOf (do let i ← nat; let a ← rat; pure (i, a)))
+    let vs ← vecsP ps.length
+    pure (showVecs "V" (gfilter (zf != 0) fs vs))
+  | "spljoin" | "splsplit" =>
+    -- base splitter: patch r has the root mirror rm_r (into its own vector) and the patch mirror bm_r (into the base vector)
+    let (maps, ps) ← decompP
+    let g := (maps.flatten.foldl max 0) + 1
+    let nb ← nat
+    let rm ← many ps.length natList
+    let bm ← many ps.length natList
+    let _ := g
+    let b := muxBufSize (bm.map CMir.leaf) (CVec.leaf 1 (List.replicate nb (0 : Rat)))
+    if op == "spljoin" then
+      let vs ← vecsP ps.length
+      pure s!"B {showRatsL (splitterJoin b ps rm bm vs nb)}"
+    else
+      let base ← ratList
+      pure (showVecs "V" (splitterSplit b ps rm bm base))
   | "csync0" | "csync1" =>
     let kn ← tok
     match kindTree kn with
